@@ -24,7 +24,9 @@
 #ifndef H_NCALLS
 #define H_NCALLS 3
 #endif
-#define H_ARR 65 /* > 64 elements: CBMC 6.11 union pitfall (see HARNESS-GUIDE / C14) */
+#ifndef H_ARR
+#define H_ARR 65 /* an array that CBMC does not split into fields: CBMC 6.11 union pitfall (see HARNESS-GUIDE / C14); props/C13.py lowers the threshold and uses 8 */
+#endif
 static struct MIR_item h_it[H_ARR];
 static struct MIR_module h_m;
 static struct MIR_data h_data[H_NCALLS];
